@@ -23,6 +23,14 @@ KEYWORD_TEXTS = [
     ("chained-cmp", "(< x0 (E 0 x1) x2)"),
     ("unpack-assign", "(setv [a #* b] (E 0 xs0)) [a b]"),
     ("del-assert", "(setv a 1) (del a) (assert (E 0 v0) \"m\") 3"),
+    ("annotated-varargs-lambda", "((fn [#^ int #* xs] (E 0 (len xs))) 1 2)"),
+    ("annotated-kwargs-lambda", "((fn [#^ int a #^ str #** k] [a (len k) (E 0 v0)]) 1 :z 2)"),
+    ("annotated-return-lambda", "((fn #^ int [a] (E 0 a)) 1)"),
+    ("annotated-defn", "(defn #^ int g [#^ int a * #^ str [b \"x\"]] [a b (E 0 v0)]) (g 1)"),
+    ("kw-from-import-as", "(import os.path [basename :as from sep :as class]) [(from \"a/b\") (E 0 v0)]"),
+    ("kw-match-rest", "(match {\"a\" 1 \"b\" (E 0 2)} {\"a\" 1 #** pass} pass)"),
+    ("kw-global", "(setv def 1) (defn f [] (global def) (setv def (E 0 v0))) (f) def"),
+    ("neg-const-pow", "[(** -1 2) (.bit-length -5) (E 0 v0) (- 2) (** (- x0) 2)]"),
     ("match", "(match (E 0 x0) 1 \"one\" [a b] [a b] {\"k\" v} v _ (E 1 v0))"),
 ]
 
